@@ -8,6 +8,7 @@ import ThruVerif.Driver.SidecarCmd
 import ThruVerif.Driver.ScanCmd
 import ThruVerif.Driver.AuthCmd
 import ThruVerif.Driver.UrlCmd
+import ThruVerif.Driver.HubCmd
 import ThruVerif.Model.Budget
 /-!
 `tvdriver`: one case per input line, one result per output line. The same lines are given to the Go
@@ -46,6 +47,7 @@ def handle (line : String) : String :=
   | "scan" :: ws => handleScan ws
   | "auth" :: ws => handleAuth ws
   | "url" :: ws => handleUrl ws
+  | "hub" :: ws => handleHub ws
   | "topnames" :: ws => handleTopNames ws
   | "scser" :: ws => handleScSer ws
   | "scload" :: ws => handleScLoad ws
